@@ -25,6 +25,7 @@ META = {
     "dynamics and failure injection are not decided by this technique.",
 }
 META["technique"] += '; constructor-parameter forwarding of the caching loaders; who-may-read the template cache'
+META["technique"] += "; freshness-covers-search rule (the uptodate of a first-match source re-runs the match)"
 
 MIXIN = "liquid2.builtin.loaders.mixins.CachingLoaderMixin"
 
@@ -307,6 +308,10 @@ def run(prog: Program, res: Result) -> None:
     from checks.shared import check_cache_read_ownership
 
     check_cache_read_ownership(prog, res, "C14.R8")
+    res.rule("C14.R9", "a cached source that was picked by first match over several candidates (FileSystemLoader's search paths, ChoiceLoader's delegates) is fresh only while it is still the first match: the uptodate handed out with it re-runs the pick, or is None (no freshness information) - otherwise a template that appears in an earlier candidate is not served while the later one is cached and unchanged, where the uncached loader serves it at once")
+    from checks.shared import check_freshness_covers_search
+
+    check_freshness_covers_search(prog, res, "C14.R9")
     res.rule("C14.R4", "LRUCache: _cache touched only inside the LRU classes; reads and writes refresh recency; eviction pops the oldest entry, only when full, only for a new key, before the insert; ThreadSafeLRUCache wraps every accessor under the lock")
     lru = prog.cls("liquid2.utils.lru_cache.LRUCache")
     tlru = prog.cls("liquid2.utils.lru_cache.ThreadSafeLRUCache")
